@@ -8,7 +8,7 @@ let parse_san (s : string) : gname list =
     | _ -> failwith "san") (String.split_on_char ',' s)
 let () = iter_lines (fun l ->
   match split_ws l with
-  | ["nc"; sk; ac; ci; nt; e; cn; san] ->
+  | [("nc" | "ncc"); sk; ac; ci; nt; e; cn; san] ->
       let o = { o_skip = (sk = "1"); o_always_cn = (ac = "1"); o_email_ci = (ci = "1"); o_type = z_of_int (int_of_string nt) } in
       let e = bytes_of_hex e in
       let cn = if cn = "NULL" then None else Some (bytes_of_hex cn) in
